@@ -24,6 +24,7 @@ import JSV.Proofs.InfSound
 import JSV.Proofs.InfNamed
 import JSV.Proofs.InfTable
 import JSV.Proofs.InfTableTree
+import JSV.Proofs.ResIso4
 import JSV.Proofs.InfEmbSound
 import JSV.Proofs.InfEmbNamed
 import JSV.Proofs.EncEmbCons
@@ -658,6 +659,61 @@ example : (match forType { schemas := [("Point", 1)] } 2 (.ptr (.named "Point" (
       #[{ type := "object" }, { type := "object", allOf := some [0] }] with
     | .ok (some id, st') => [Spec.valid (specEnvNoRefs st') 2 id .null, Spec.valid (specEnvNoRefs st') 2 id (.obj [])]
     | _ => []) = [some false, some true] := by decide +kernel
+
+/-! ### entries WITH references (labelled tests): after cloning, a `#`-rooted reference is relative to the inferred root -/
+
+/-- `TypeSchemas[Point] = {"$defs":{"coord":{"type":"number"}},"type":"object","properties":{"lat":{"$ref":"#/$defs/coord"},
+    "lon":{"$ref":"#/$defs/coord"}},"required":["lat","lon"]}` (node 3) -/
+def refStore : Store := #[
+  { type := "number" },
+  { ref := "#/$defs/coord" },
+  { ref := "#/$defs/coord" },
+  { type := "object", defs := some [("coord", 0)], properties := some [("lat", 1), ("lon", 2)], required := some ["lat", "lon"] }]
+
+/-- `Resolve` (no Loader, empty base URI) and then validate: the verdict of the Spec over the tables `Resolve` computes -/
+def resolvedValid (st : Store) (root : NodeId) (j : Json) : Res (Option Bool) :=
+  (Go.resolve { st := st, reOk := fun _ => true, loader := none } 4 root "").bind fun rs =>
+    .ok (Spec.valid (Go.RIso.specOf st rs fun _ _ => false) 6 root j)
+
+/-- the entry on its own resolves and accepts `{"lat":1.5,"lon":2}` -/
+example : resolvedValid refStore 3 (.obj [("lat", .num (3/2)), ("lon", .num 2)]) = .ok (some true) := by decide +kernel
+
+/-- at the ROOT of the inferred schema (`For[Point]`) the clone resolves like the entry (C20 `clone_validates_same`) -/
+example : (match forType { schemas := [("Point", 3)] } 2 (.named "Point" (.basic "Bool")) refStore with
+    | .ok (some id, st') => resolvedValid st' id (.obj [("lat", .num (3/2)), ("lon", .num 2)])
+    | _ => .panic) = .ok (some true) := by decide +kernel
+
+/-- **`table_entry_with_ref_unresolvable`**: below the root (`For[[]Point]`; the same for a struct field of type `Point`)
+    the pointer `#/$defs/coord` is evaluated from the root of the INFERRED schema, `{"type":["null","array"],"items":…}`,
+    which has no `$defs`: `Resolve` of the schema `ForType` returned fails (the real package: `JSON Pointer
+    "/$defs/coord": no key "coord" in map`), so no instance is accepted -/
+theorem table_entry_with_ref_unresolvable : (match forType { schemas := [("Point", 3)] } 3 (.slice (.named "Point" (.basic "Bool"))) refStore with
+    | .ok (some id, st') => resolvedValid st' id (.arr [.obj [("lat", .num (3/2)), ("lon", .num 2)]])
+    | _ => .panic) = .err := by decide +kernel
+
+/-- `type Tree struct { Children []Tree "json:\"children\"" }` with the recursive entry
+    `TypeSchemas[Tree] = {"type":"object","properties":{"children":{"type":["null","array"],"items":{"$ref":"#"}}},
+    "required":["children"]}` (node 2) -/
+def hashStore : Store := #[
+  { ref := "#" },
+  { types := some ["null", "array"], items := some 0 },
+  { type := "object", properties := some [("children", 1)], required := some ["children"] }]
+
+/-- the entry on its own accepts the encoding `{"children":[{"children":null}]}` of `Tree{Children: []Tree{{}}}` -/
+example : resolvedValid hashStore 2 (.obj [("children", .arr [.obj [("children", .null)]])]) = .ok (some true) := by decide +kernel
+
+/-- **`table_entry_with_ref_changes_meaning`**: in the schema inferred for `[]Tree`, `{"type":["null","array"],"items":
+    <clone>}`, the reference `#` of the clone designates the ARRAY schema, not the clone: the encoding
+    `[{"children":[{"children":null}]}]` of `[]Tree{{Children: []Tree{{}}}}` is rejected (the inner tree is not an
+    array), while `[{"children":[[]]}]`, which no value of the type encodes to, is accepted.  The real package does the
+    same (also for `struct{ Root Tree }`: `unexpected additional properties ["children"]`).  So the hypothesis
+    "reference-free" of `infer_sound_table` is needed for entries below the root. -/
+theorem table_entry_with_ref_changes_meaning : (match forType { schemas := [("Tree", 2)] } 3 (.slice (.named "Tree" (.basic "Bool"))) hashStore with
+    | .ok (some id, st') =>
+      [resolvedValid st' id (.arr [.obj [("children", .null)]]),
+       resolvedValid st' id (.arr [.obj [("children", .arr [.obj [("children", .null)]])]]),
+       resolvedValid st' id (.arr [.obj [("children", .arr [.arr []])]])]
+    | _ => []) = [.ok (some true), .ok (some false), .ok (some true)] := by decide +kernel
 
 /-- `NamedOk` is needed, (1): a name that occurs twice along ONE path — how a recursive declaration looks in the type
     language — makes `forType` fail (the cycle check, `C16.recursive_*_errors`), although the erased type has a schema -/
